@@ -8,6 +8,10 @@ Driver of C12 (date arithmetic). One JSON request per line, batches inside a req
         -> {"model":[[y,m,d],..],"spec":[bool|null,..]}
   {"op":"devLag","items":[[py,pm,pd,ey,em,ed,"unit"],..],"impl":["n/d"|null,..]}
         -> {"model":["n/d"|null,..],"spec":[bool|null,..]}   (null model: unit refused)
+  {"op":"devLagExt","items":[[py,pm,pd,ey,em,ed,"unit"],..],"impl":[[lag, back],..]}
+        lag = ["fin","n/d"] | "inf" | "tdmax" | null (unit refused); back = add_months(pe, lag) as [y,m,d] | null
+        -> {"model":[[lag, back],..],"spec":[bool|null,..]}   (calculateDevLagExt / addMonthsExt: the date.max
+        sentinel; spec = the inverse law `back == evaluation date` where the lag is inf)
   {"op":"monthId","items":[[y,m,d],..],"impl":[[id,[first],[last]]|null,..]}
         -> {"model":[[id,[first],[last]],..],"spec":[bool|null,..]}
   {"op":"idToMonth","items":[[id,beginning],..],"impl":[[y,m,d]|null,..]}
@@ -23,6 +27,7 @@ Driver of C12 (date arithmetic). One JSON request per line, batches inside a req
 -/
 import Bermuda.Model.Json
 import Bermuda.Model.DateUtils
+import Bermuda.Model.DateUtilsExt
 import Bermuda.Spec.C12
 open Lean Bermuda
 
@@ -68,6 +73,12 @@ def digest (d : Date) (kmin kmax idlo idhi : Int) : Json := Id.run do
                     Json.num (JsonNumber.fromInt s1), Json.num (JsonNumber.fromInt s2)]
 
 def unitOf (s : String) : Option LagUnit := LagUnit.parse? s
+
+def lagExtToJson : Option LagExt → Json
+  | none => Json.null
+  | some .inf => Json.str "inf"
+  | some .tdMax => Json.str "tdmax"
+  | some (.fin q) => Json.arr #[Json.str "fin", ratToJson q]
 
 def handle (j : Json) : Except String Json := do
   let op ← (← j.getObjVal? "op").getStr?
@@ -130,6 +141,28 @@ def handle (j : Json) : Except String Json := do
           | .month =>
             if pe.isMonthEnd && ev.isMonthEnd then return Spec.monthEndLagOk pe ev q else return true
           | _ => return q.den == 1 && Spec.dayLagOk pe ev q.num)
+    return Json.mkObj [("model", Json.arr model), ("spec", Json.arr spec)]
+  | "devLagExt" =>
+    let items ← arr? j "items"
+    let impl := optImpl j
+    let mut model := #[]
+    let mut spec := #[]
+    for i in [0:items.size] do
+      let a ← items[i]!.getArr?
+      let pe ← dateAt a 0
+      let ev ← dateAt a 3
+      let u ← a[6]!.getStr?
+      let lag := calculateDevLagExt pe ev u
+      let back : Json := match lag.bind (addMonthsExt pe) with
+        | some d => d.toJson
+        | none => Json.null
+      model := model.push (Json.arr #[lagExtToJson lag, back])
+      spec := spec.push (← specOn (implAt impl i) fun r => do
+        let ra ← r.getArr?
+        -- the inverse law on the sentinel: an infinite lag added to the period end gives the evaluation date
+        if ra[0]! == Json.str "inf" then
+          if ra[1]!.isNull then return false else return Spec.inverseOk ev (← Date.fromJson ra[1]!)
+        else return true)
     return Json.mkObj [("model", Json.arr model), ("spec", Json.arr spec)]
   | "monthId" =>
     let items ← arr? j "items"
